@@ -40,6 +40,9 @@ pub enum Terminal {
     PollBudget,
     /// The harness stopped asking (response limit).
     Limit,
+    /// The peer stays connected and silent, and the operation waits for bytes that never come
+    /// (only with a `silent` peer; the expected end of such a run once everything was delivered).
+    Starved,
 }
 
 pub fn cframe(f: &Frame) -> CFrame {
